@@ -677,6 +677,20 @@ namespace bloch::runtime {
         return v;
     }
 
+    // The analyser resolves an overload among the members the call site may use; the run-time
+    // choice has to be made among the same candidates (a more specific private constructor must
+    // not win over the public one the analyser picked).
+    bool RuntimeEvaluator::constructorAccessible(const ConstructorDeclaration* decl,
+                                                 const RuntimeClass* owner) const {
+        if (!decl || !owner || decl->visibility == compiler::Visibility::Public)
+            return true;
+        if (!m_currentClassCtx)
+            return false;
+        if (decl->visibility == compiler::Visibility::Private)
+            return m_currentClassCtx == owner;
+        return runtimeInheritanceDistance(m_currentClassCtx->name, owner->name) >= 0;
+    }
+
     Value RuntimeEvaluator::lookup(const std::string& name) {
         for (size_t i = m_env.size(); i-- > m_frameStart;) {
             auto fit = m_env[i].find(name);
@@ -1722,6 +1736,8 @@ namespace bloch::runtime {
                 bool ambiguousSuperCtor = false;
                 int bestCost = std::numeric_limits<int>::max();
                 for (auto& c : cls->base->constructors) {
+                    if (!constructorAccessible(c.decl, cls->base))
+                        continue;
                     auto cost = argumentsConversionCost(c.params, superArgs);
                     if (!cost)
                         continue;
@@ -2597,6 +2613,8 @@ namespace bloch::runtime {
             bool ambiguousCtor = false;
             int bestCost = std::numeric_limits<int>::max();
             for (auto& c : cls->constructors) {
+                if (!constructorAccessible(c.decl, cls))
+                    continue;
                 auto cost = argumentsConversionCost(c.params, args);
                 if (!cost)
                     continue;
